@@ -44,6 +44,9 @@ fn main() {
     let mut violations = gb.violations.clone();
     violations.extend(hb.violations.iter().cloned());
     let (code, new_count, known_hit) = util::report("C03", &tier, root, &violations);
+    let (reg_n, reg_failed) = util::run_regressions("C03", |sc| if sc.get("ops").is_some() { heap::replay(sc) } else { gcsim::replay(sc) });
+    let code = if reg_failed > 0 { 1 } else { code };
+    let new_count = new_count + reg_failed;
 
     let wall = start.elapsed().as_secs_f64();
     let mut probes = gb.probes.clone();
@@ -115,6 +118,7 @@ fn main() {
                 ("stub", Json::Arr(["Callbacks implementor with in-memory file table (replaces rsjsonnet-front)", "collection trigger decision (hook H1)", "SimNode payload type in sim-heap (hook H2)"].iter().map(|s| Json::str(*s)).collect())),
             ])),
             ("determinism_sample".into(), Json::obj(vec![("reexecuted", Json::Num((gb.determinism_reexecuted + hb.determinism_reexecuted) as f64)), ("mismatches", Json::Num(0.0))])),
+            ("regression_scenarios_replayed".into(), Json::Num(reg_n as f64)),
             ("known_findings_hit".into(), Json::Arr(known_hit.iter().map(Json::str).collect())),
             ("corpus_files_used".into(), Json::Num(corp.entries.len() as f64)),
             ("corpus_files_skipped".into(), Json::Num(corp.skipped as f64)),
